@@ -196,6 +196,15 @@ def _results(p):
 
 
 def _visit_clauses():
+    def count(events, label):                      # traverse / leave events carry the origin of their argument
+        return sum(1 for e in events if e == label or e.startswith(label + ":"))
+
+    def index(events, label):
+        for i, e in enumerate(events):
+            if e == label or e.startswith(label + ":"):
+                return i
+        return -1
+
     def enter_first(p):
         return count(p.events, "enter") == 1 and p.events[0] == "enter"
 
@@ -232,7 +241,24 @@ def _visit_clauses():
             return count(p.events, "leave") == 1 and index(p.events, "traverse") < index(p.events, "leave")
         return None
 
+    def origin(ev):
+        return ev.split(":", 1)[1] if ":" in ev else None
+
+    def flows(p):
+        # data flow: the traversal runs on what enter returned, leave is called on what the traversal returned, and that is the result
+        tr = [e for e in p.events if e.startswith("traverse")]
+        lv = [e for e in p.events if e.startswith("leave")]
+        if not tr:
+            return None
+        ok = origin(tr[0]) == "inst.enter(...)"
+        if lv:
+            ok = ok and origin(lv[0]) == "method(...)"
+        if p.outcome == "return":
+            ok = ok and ((isinstance(p.payload, Unknown) and p.payload.text == "method(...)") or (isinstance(p.payload, T.Const) and p.payload.value is None))
+        return ok
+
     return [
+        ("value-flows-enter-traverse-leave-result", "children are traversed on the node enter returned; leave sees, and the wrapper returns, what the traversal returned", flows),
         ("enter-once-first", "enter is called exactly once, before anything else", enter_first),
         ("skip-suppresses-children-and-leave", "SkipNode from enter: no traversal, no leave, the original node is returned", skip),
         ("none-deletes-without-traversal", "enter returning None: no traversal, no leave, None is returned", deleted),
@@ -521,7 +547,9 @@ TRACE_CONTRACTS = [
                        callbacks=[(r"runtime\.map_value$", map_value_contract)]),
          clauses=_event_clauses(), assumes=["Runtime.map_value effect contract"]),
     dict(id="_visit_method.wrapper", target="py_gql.lang.visitor:_visit_method", inner="wrapper", props=["C18"],
-         config=Config(events=[(r"^inst\.enter$", "enter"), (r"^method$", "traverse"), (r"^inst\.leave$", "leave")],
+         config=Config(events=[(r"^inst\.enter$", "enter"),
+                               (r"^method$", lambda call, args, kwargs: "traverse:%s" % (args[1].text if len(args) > 1 and isinstance(args[1], Unknown) else "?")),
+                               (r"^inst\.leave$", lambda call, args, kwargs: "leave:%s" % (args[0].text if args and isinstance(args[0], Unknown) else "?"))],
                        raises=[(r"^inst\.enter$", [__import__("py_gql.lang.visitor", fromlist=["SkipNode"]).SkipNode])]),
          clauses=_visit_clauses(),
          assumes=["enter raises nothing but SkipNode for the purposes of this contract (other exceptions abort the whole visit)"]),
